@@ -30,6 +30,8 @@ def plan(tier, seed):
         {"func": "cryptosign", "name": "cryptosign/tx", "fw": "twisted", "args": {"seed": seed * 1000 + 5, "n": 500 if q else 15000}},
         {"func": "cryptosign", "name": "cryptosign/aio", "fw": "asyncio", "args": {"seed": seed * 1000 + 6, "n": 500 if q else 15000}},
     ]
+    for fw in ("twisted", "asyncio"):
+        jobs.append({"func": "scram_session", "fw": fw, "name": "scram_session/" + fw, "args": {}})
     if not q:
         for k in range(4):
             jobs.append({"func": "scram", "name": "scram/x%d" % k, "args": {"seed": seed * 1000 + 10 + k, "n": 400, "kdf": ["argon2id-13", "pbkdf2"][k % 2]}})
@@ -453,9 +455,99 @@ def cryptosign(col, seed, n, only=None):
     col.exhaustive.append("every single-bit flip of one Ed25519 signature (512)")
 
 
+WELCOME_VARIANTS = ["correct", "absent", "empty", "other-keys", "empty-string", "bit-flipped", "not-base64", "null-signature", "truncated"]
+
+
+def scram_session_one(c):
+    """a whole session using the authenticator API (Session.add_authenticator) against a scripted router: HELLO, CHALLENGE, AUTHENTICATE (proof checked
+    by the RFC 5802 reference), then a WELCOME whose authextra is one of WELCOME_VARIANTS: the session joins only for the correct server signature"""
+    from harness.wampsess import SessionWorld
+    from harness import drv
+    from autobahn.wamp import auth
+    if drv.FW == "twisted":
+        from autobahn.twisted.wamp import Session
+    else:
+        from autobahn.asyncio.wamp import Session
+    password, authid, iterations = c["password"], c["authid"], c["iterations"]
+    hooks = {"onChallenge": lambda self, ch: Session.onChallenge(self, ch), "onWelcome": lambda self, wm: Session.onWelcome(self, wm)}
+    w = SessionWorld(session_cls=Session, serializer="json", hooks=hooks)
+    try:
+        M = w.message
+        a = auth.create_authenticator("scram", authid=authid, password=password, kdf="pbkdf2")
+        w.session.add_authenticator(a)
+        w.open()
+        hello = [m for m in w.t.sent if type(m).__name__ == "Hello"]
+        if len(hello) != 1 or "scram" not in (hello[0].authmethods or []):
+            raise Violation("C19|scram-session|hello", "HELLO %r" % (w.t.sent,), c)
+        client_nonce = (hello[0].authextra or {}).get("nonce")
+        salt_b64 = base64.b64encode(b"salt-of-16-bytes").decode("ascii")
+        server_nonce = client_nonce + base64.b64encode(b"server-nonce-16b").decode("ascii")
+        extra = {"nonce": server_nonce, "kdf": "pbkdf2", "salt": salt_b64, "iterations": iterations}
+        n0 = len(w.t.sent)
+        err = w.feed(M.Challenge("scram", extra))
+        if err is not None:
+            raise Violation("C19|scram-session|challenge-raised|" + exc_key(err), repr(err), c)
+        au = [m for m in w.t.sent[n0:] if type(m).__name__ == "Authenticate"]
+        if len(au) != 1:
+            raise Violation("C19|scram-session|no-authenticate", "%r" % ([type(m).__name__ for m in w.t.sent[n0:]],), c)
+        proof = base64.b64decode(au[0].signature)
+        auth_message = ("n=%s,r=%s,r=%s,s=%s,i=%d,c=%s,r=%s" % (authid, client_nonce, server_nonce, salt_b64, iterations, "", server_nonce)).encode("utf8")
+        sp = hashlib.pbkdf2_hmac("sha256", password.encode("utf8"), base64.b64decode(salt_b64), iterations, 32)
+        client_key = hmac.new(sp, b"Client Key", hashlib.sha256).digest()
+        stored_key = hashlib.sha256(client_key).digest()
+        recovered = bytes(x ^ y for x, y in zip(proof, hmac.new(stored_key, auth_message, hashlib.sha256).digest()))
+        if len(proof) != 32 or hashlib.sha256(recovered).digest() != stored_key:
+            raise Violation("C19|scram-session|proof-rejected-by-rfc5802-verifier", "extra=%r" % (extra,), c)
+        sig = hmac.new(hmac.new(sp, b"Server Key", hashlib.sha256).digest(), auth_message, hashlib.sha256).digest()
+        good = base64.b64encode(sig).decode("ascii")
+        k = c.get("bit", 0) % 256
+        flipped = bytes(b ^ (1 << (k % 8)) if i == k // 8 else b for i, b in enumerate(sig))
+        authextra = {"correct": {"scram_server_signature": good}, "absent": None, "empty": {}, "other-keys": {"x_note": "hello"}, "empty-string": {"scram_server_signature": ""},
+                     "bit-flipped": {"scram_server_signature": base64.b64encode(flipped).decode("ascii")}, "not-base64": {"scram_server_signature": "###"},
+                     "null-signature": {"scram_server_signature": None}, "truncated": {"scram_server_signature": base64.b64encode(sig[:31]).decode("ascii")}}[c["variant"]]
+        n1 = len(w.t.sent)
+        try:
+            err = w.welcome(4711, authid=authid, authrole="user", authmethod="scram", authprovider="static", authextra=authextra)
+        except Exception as e:         # building the WELCOME itself failed: not a case
+            raise HarnessError("cannot build WELCOME for %r: %r" % (c["variant"], e))
+        joined = any(e[0] == "join" for e in w.events)
+        if c["variant"] == "correct":
+            if not joined:
+                raise Violation("C19|scram-session|genuine-server-signature-rejected", "events %r sent %r err %r" % (w.events, [type(m).__name__ for m in w.t.sent[n1:]], err), c)
+        elif joined:
+            raise Violation("C19|scram-session|joined-without-correct-server-signature|" + c["variant"], "WELCOME authextra=%r: the session joined (events %r)" % (authextra, w.events), c)
+    finally:
+        w.close()
+
+
+def scram_session(col):
+    n = 0
+    for password, authid in (("secret", "joe"), ("päßwörd", "user1")):
+        for iterations in (1, 4096):
+            for variant in WELCOME_VARIANTS:
+                for bit in ((0, 7, 100, 255) if variant == "bit-flipped" else (0,)):
+                    c = {"check": "scram_session", "password": password, "authid": authid, "iterations": iterations, "variant": variant, "bit": bit}
+                    try:
+                        scram_session_one(c)
+                    except (Violation, HarnessError):
+                        raise
+                    except Exception as e:
+                        from harness.core import in_autobahn
+                        if in_autobahn(e):
+                            raise Violation("C19|scram-session|exception|" + exc_key(e), repr(e), c)
+                        raise
+                    n += 1
+                    col.case(variant != "correct", enum=True, cls=["scram-session/" + variant], sample=c)
+    col.exhaustive.append("C19 scram_session: whole-session SCRAM exchange x 9 WELCOME authextra variants x 2 credentials x 2 iteration counts (%d cases)" % n)
+
+
 def replay(col, case):
     case = dec(case)
     c = case.get("case", case)
+    if c.get("check") == "scram_session":
+        scram_session_one(c)
+        col.case()
+        return
     kind = c.pop("check")
     if kind == "cra":
         cra(col, 0, 1, only=c)
